@@ -177,7 +177,7 @@ def has_call(expr):
     return re.search(r'[A-Za-z_][A-Za-z0-9_]*\s*\(', e) is not None
 
 
-def param_names_of_newtypes(params, self_is_newtype):
+def param_names_of_newtypes(params, self_is_newtype, extra=()):
     names = []
     for p in rustsrc.split_params(params):
         p = p.strip()
@@ -192,7 +192,7 @@ def param_names_of_newtypes(params, self_is_newtype):
             continue
         ty = m.group(2).strip()
         ty = re.sub(r'^&\s*(\'\w+\s+)?(mut\s+)?', '', ty)
-        if ty in NEWTYPES:
+        if ty in NEWTYPES or ty in extra:
             names.append(m.group(1))
     return names
 
@@ -577,12 +577,27 @@ def build_unit(repo, contracts=None, extra_files=()):
     if os.path.exists(laws):
         unit.add('pub mod laws {')
         unit.add(MODULE_PRELUDE.rstrip('\n'))
-        unit.add('    #[allow(unused_imports)] use crate::date::{Date, Month, WeekDay};\n    #[allow(unused_imports)] use crate::time::Time;\n'
-                 '    #[allow(unused_imports)] use crate::timestamp::Timestamp;\n    #[allow(unused_imports)] use crate::interval::{IntervalDT, IntervalYM, Sign};\n'
+        unit.add('    #[allow(unused_imports)] use crate::date::{Date, Month, WeekDay, weekday_num};\n    #[allow(unused_imports)] use crate::time::Time;\n'
+                 '    #[allow(unused_imports)] use crate::timestamp::Timestamp;\n    #[allow(unused_imports)] use crate::interval::{IntervalDT, IntervalYM, Sign, sign_num};\n'
                  '    #[allow(unused_imports)] use crate::oracle::Date as OracleDate;')
-        start = unit.lineno()
-        unit.add(open(laws, encoding='utf-8').read().rstrip('\n'))
-        unit.items.append({'item': 'laws :: laws.rs', 'kind': 'ghost', 'mode': 'ghost (laws over contracts)', 'lines': [start, unit.lineno() - 1]})
+        for it in rustsrc.split_items(rustsrc.strip_comments(open(laws, encoding='utf-8').read())):
+            if it.kind != 'fn':
+                unit.problems.append('laws.rs: only fn items are allowed, found %s' % it.kind)
+                continue
+            f = it.fn
+            start = unit.lineno()
+            head = it.text[:it.text.index('{')] if f.body is not None else it.text
+            # header text up to the body: find the body by bracket matching from the end
+            body_open = len(it.text) - len(f.body) - 2
+            unit.add('    ' + it.text[:body_open].rstrip())
+            unit.add('    {')
+            ghosts = ['use_type_invariant(%s);' % n for n in param_names_of_newtypes(f.params, False, extra=('OracleDate',))]
+            if ghosts:
+                unit.add('        proof { ' + ' '.join(ghosts) + ' }')
+            unit.add(f.body.strip('\n'))
+            unit.add('    }')
+            unit.items.append({'item': 'laws :: fn ' + f.name, 'kind': 'law', 'mode': 'verified', 'fn': f.name, 'module': 'laws', 'scope': '',
+                               'lines': [start, unit.lineno() - 1], 'contract_origin': 'laws.rs'})
         unit.add('}')
     for p in extra_files:
         unit.add(open(p, encoding='utf-8').read().rstrip('\n'))
